@@ -140,7 +140,21 @@ func (x *Exec) model(st *State, fr *Frame, in *ssa.Call, callee *ssa.Function, a
 			return ret(r)
 		case "math.Pow10":
 			x.S.DeclareFun("pow10", []string{"Int"}, fs)
-			return ret("(pow10 " + a(0) + ")")
+			r := "(pow10 " + a(0) + ")"
+			n := a(0)
+			if x.fp() {
+				// assumed contract of math.Pow10 (Go 1.23): 0 below 1e-323, +Inf above 1e308, otherwise positive finite; >= 1 for n >= 0
+				x.assume(st, And(Not("(fp.isNaN "+r+")"), "(fp.geq "+r+" (_ +zero 11 53))",
+					Imp("(> "+n+" 308)", "(= "+r+" (_ +oo 11 53))"),
+					Imp("(< "+n+" (- 323))", "(= "+r+" (_ +zero 11 53))"),
+					Imp("(and (>= "+n+" (- 323)) (<= "+n+" 308))", And(Not("(fp.isInfinite "+r+")"), "(fp.gt "+r+" (_ +zero 11 53))")),
+					Imp("(>= "+n+" 0)", "(fp.geq "+r+" "+floatLit(x.te, 1)+")"),
+					Imp("(>= "+n+" 1)", "(fp.geq "+r+" "+floatLit(x.te, 10)+")"),
+					Imp("(<= "+n+" 0)", "(fp.leq "+r+" "+floatLit(x.te, 1)+")")))
+			} else {
+				x.assume(st, And("(> "+r+" 0.0)", Imp("(>= "+n+" 0)", "(>= "+r+" 1.0)"), Imp("(>= "+n+" 1)", "(>= "+r+" 10.0)"), Imp("(<= "+n+" 0)", "(<= "+r+" 1.0)")))
+			}
+			return ret(r)
 		case "math.Sin", "math.Cos", "math.Tan", "math.Asin", "math.Acos", "math.Atan", "math.Exp", "math.Log", "math.Sinh", "math.Cosh", "math.Tanh", "math.Log10", "math.Log2", "math.Cbrt":
 			x.usedFloatArith = true
 			return ret(x.ufFloat("f"+strings.ToLower(strings.TrimPrefix(name, "math.")), a(0)))
